@@ -18,10 +18,19 @@ SRCS=$(cd $REPO && ls SRC/*.c CBLAS/*.c | grep -v 'SRC/sp_ienv.c' | grep -v 'CBL
 EXTRALIB=""
 if [ $FLAV = vblas ]; then SRCS=$(cd $REPO && ls SRC/*.c | grep -v 'SRC/sp_ienv.c'); EXTRALIB="-lopenblas"; fi
 HASH=$( (cd $REPO && cat $SRCS SRC/*.h CBLAS/*.h; cat $HERE/*.cc $HERE/*.hh $HERE/build.sh; echo "$FLAV $LIBF $HF") | sha256sum | cut -c1-16)
-BD=$ROOT/build/$FLAV-$HASH
-if [ -x $BD/simfact ]; then echo $BD; exit 0; fi
-# prune older builds of this flavour
-for d in $ROOT/build/$FLAV-*; do [ -d "$d" ] && [ "$d" != "$BD" ] && rm -rf "$d"; done
+if [ "$REPO" != /repo ]; then
+  # a scratch tree (selftests, background runs): its builds live apart and never displace the builds of /repo
+  BD=$ROOT/build/scratch/$FLAV-$HASH
+else
+  BD=$ROOT/build/$FLAV-$HASH
+fi
+if [ -x $BD/simfact ]; then touch $BD; echo $BD; exit 0; fi
+if [ "$REPO" = /repo ]; then
+  # prune builds of this flavour that have not been used for two hours (another check may be running on a newer one right now)
+  for d in $ROOT/build/$FLAV-*; do [ -d "$d" ] && [ "$d" != "$BD" ] && [ -n "$(find "$d" -maxdepth 0 -mmin +120)" ] && rm -rf "$d"; done
+fi
+# build in a private directory and move it into place, so that a concurrent build of the same sources cannot see a half-built tree
+FINAL=$BD; BD=$FINAL.tmp.$$
 mkdir -p $BD/lib $BD/h $ROOT/build/tmp
 ( cd $REPO && for f in $SRCS; do echo $f; done ) | xargs -P 16 -I{} sh -c "gcc -c $LIBF -I$REPO/SRC -I$REPO/CBLAS $REPO/{} -o $BD/lib/\$(echo {} | tr '/' '_' | sed 's/\.c\$/.o/')" >&2
 rm -f $BD/libslu.a; ar rcs $BD/libslu.a $BD/lib/*.o
@@ -32,4 +41,5 @@ CXX="g++ -std=c++17 -fcx-limited-range $HF -I$REPO/SRC -I$HERE"
 ) | xargs -P 16 -I{} sh -c "{}" >&2
 WRAPS="-Wl,--wrap=pthread_create,--wrap=pthread_join,--wrap=pthread_mutex_init,--wrap=pthread_mutex_destroy,--wrap=pthread_mutex_lock,--wrap=pthread_mutex_unlock,--wrap=malloc,--wrap=calloc,--wrap=realloc,--wrap=free,--wrap=exit"
 g++ $LDF -rdynamic -o $BD/simfact $BD/h/*.o $BD/libslu.a $EXTRALIB $WRAPS -lpthread -ldl -lm >&2
-echo $BD
+if [ -x $FINAL/simfact ]; then rm -rf $BD; else mkdir -p $(dirname $FINAL); mv $BD $FINAL 2>/dev/null || rm -rf $BD; fi
+echo $FINAL
